@@ -4,6 +4,8 @@
 #[cfg(kani)]
 mod verif_kani {
     use super::*;
+    #[allow(unused_imports)]
+    use crate::{chunk_dictionary as dict, chunker, compression::CompressionAlgorithm, header, Compression, HashSum};
 
     /// verify_pre_header: total for every slice of length 0..=16; Ok <=> the first six bytes are one of the two magics.
     #[kani::proof]
